@@ -79,6 +79,17 @@ CLAIMED = {
             "Trusts the pyvc encoder, z3 (Seq + LIA/NIA); A-concrete-inputs (abstract-array branches dropped); float scalar as "
             "real; mixed int/pair input sequences of symbolic length, num_copies and __hash__ are not covered.",
             "DESIGN.md 4 C44", "E1"),
+    "C61": ("proof",
+            "contract on step/step_and_cost/apply_grad/compute_grad of the six gradient optimizers: outputs == documented "
+            "update rule; real methods executed on sympy-backed symbolic scalars from an arbitrary accumulator state with an "
+            "uninterpreted gradient; rational-function normal form (sqrt / symbolic powers as atoms); float replay",
+            "Inductive step and first step of GradientDescent, Momentum, NesterovMomentum, Adagrad, RMSProp and Adam: new "
+            "trainable arguments, untouched non-trainable argument, new accumulator state, the point at which the gradient "
+            "is evaluated (Nesterov shift) and the cost returned by step_and_cost (objective at the PRE-step arguments) equal "
+            "the docstring formulas for all hyperparameters, states and gradients; induction over steps covers histories.",
+            "Trusts vf/symx/sscalar.py + sympy; gradients supplied through grad_fn (autograd not verified); scalar arguments; "
+            "QNG/SPSA/Rotosolve/Rotoselect/ShotAdaptive/Riemannian optimizers not covered.",
+            "DESIGN.md 4 C61", "E2"),
 }
 
 
